@@ -27,7 +27,7 @@ SPEC["C01"] = {
 CLAIMS["C01"] = {
     "technique": "reference-model runtime monitor: real compiler + real client validators vs. an independent three-valued TypeScript membership model, on generated programs x (members, one-edit mutants, hostile values); violations localised by re-execution",
     "text": "Every generated (program, parser, value) triple is compiled by the real extract+emit_code, loaded against the real client runtime and judged against an independent reference interpreter of the TypeScript subset. "
-            "Held means: no disagreement outside the recorded known findings on ~6e5 (quick) / ~1.5e7 (thorough) judged pairs; reach is bounded by the generator grammar and the reference's specified region.",
+            "Held means: no disagreement outside the recorded known findings on ~6e5 (quick) / ~1.5e7 (thorough) judged pairs; reach is bounded by the generator grammar and the reference's specified region. A table of source-text probes (one program per repaired defect or documented refusal, with the values that told the behaviours apart and TypeScript's verdict) is judged in every run, so that a regression of a repaired defect is found whatever the random streams produce.",
     "note": TRUST_REF,
 }
 
@@ -57,7 +57,7 @@ CLAIMS["C03"] = {
     "technique": "relational runtime monitor over recorded results of validate/safeParse/parse (agreement, idempotence, projection, key-order invariance) + input snapshot/deep-freeze mutation monitor",
     "text": "For every (validator, value, options) triple the three entry points of the real client are run and their results related to each other; successful data is re-validated, re-parsed, "
             "checked to be a projection of the input made of declared parts only, compared across objectKeyOrder, and the input is snapshotted before and deep-frozen for a second run. "
-            "Held = no relation broken outside recorded known findings.",
+            "Held = no relation broken outside recorded known findings. Besides the random corpus: an enumerated grid of leaf kinds shared by intersection / union members, probes kept from repaired defects (short tuples, Map / Set intersections, prototype-named optional keys, sorted key order), and a bulk stream (containers of 60 000 - 200 000 mostly wrong items against array / tuple / record / Map / Set / union parsers).",
     "note": "No membership oracle is needed except 'declared somewhere' (generous over-approximation from js/ref). Inputs whose own code throws (getters, Proxy traps) are not generated. A2/A1 as everywhere.",
 }
 
@@ -72,7 +72,7 @@ SPEC["C12"] = {
 CLAIMS["C12"] = {
     "technique": "runtime monitor with a path-resolver oracle over recorded safeParse().errors / printErrors / parse().message of every rejected value",
     "text": "Every rejected (validator, value, options) of the corpus is checked: 1..10 errors; each path, including paths inside nested union errors, is resolved against the input "
-            "(property, [i], key()/value()/item() segments; last segment may be a missing property) and `received` must be identical to what is found there; printErrors and the parse() message are rendered twice and must not throw or differ.",
+            "(property, [i], key()/value()/item() segments; last segment may be a missing property) and `received` must be identical to what is found there; printErrors and the parse() message are rendered twice and must not throw or differ. A bulk stream (containers of 60 000 - 200 000 wrong items) checks that the report stays within ten errors and that nothing throws; the hostile pool contains Map keys / Set members that cannot be converted to a string.",
     "note": "The resolver is reference-free (it only reads the input). Ambiguous segments (a property literally named '[0]') are resolved in every possible way and accepted if one fits. A2/A1 as everywhere.",
 }
 
@@ -132,7 +132,7 @@ CLAIMS["C05"] = {
     "text": "For each pair the engine's answer is observed through the public API. The oracle enumerates the exact values of S - per position one representative of every class the two types can tell apart (mentioned literals plus a fresh one, "
             "list lengths up to the longest mentioned prefix plus one extra element per list type of T, mentioned keys plus one fresh key per object type of T under index signatures, named types unfolded to depth 4) - and tests each for open membership in T. "
             "`yes` with a witness outside T is a violation (sound: the witness is a concrete value, re-checked by the reference's own exact/open membership); `no` with a completely enumerated universe and no witness is a violation; `no` with a truncated universe is inconclusive. "
-            "Also checked: is_same_type = both directions; the answer does not depend on what the context has been asked before; a decision that burns 20 s of CPU is reported as non-termination. Violating pairs are shrunk (subterm replacement) while the same clause fails.",
+            "Also checked: is_same_type = both directions; the answer does not depend on what the context has been asked before; a decision that burns 20 s of CPU is reported as non-termination. Violating pairs are shrunk (subterm replacement) while the same clause fails. Streams: bounded-exhaustive pairs, random pairs (a third of them with typed-array / bigint / Date leaves), near pairs, relational laws, covering problems for tuples / objects / index signatures, reference cycles against an edited copy, and finite index signatures against the same keys declared by name.",
     "note": "The exact/open reading (left operand: declared properties only; right operand: structural) is the one the property states. Types the engine refuses with an error (`recursive type` for a recursive alias whose body is a union) are counted as refusals, not decisions.",
 }
 SPEC["C06"] = {
